@@ -170,6 +170,15 @@ func (h *H) inject(m *Mon, t coin.Transaction, class string, foreign bool) {
 // offer submits a block to a node and checks soundness of the decision against the node's model.
 // Returns whether the node accepted it.
 func (h *H) offer(m *Mon, b coin.SignedBlock, label string) bool {
+	mirror := m == h.Fol && h.mirrorInSync()
+	ok := h.offer1(m, b, label)
+	if mirror {
+		h.offerMirror(b, label, ok)
+	}
+	return ok
+}
+
+func (h *H) offer1(m *Mon, b coin.SignedBlock, label string) bool {
 	conds := m.M.BlockConds(&b)
 	hardConds := nonLegacy(conds)
 	before := m.N.Dump()
@@ -465,6 +474,7 @@ func (h *H) stepRemoveInvalid(m *Mon) {
 func (h *H) stepReopen(m *Mon) {
 	h.log("reopen " + m.Name)
 	path := m.N.Path
+	h.swapLock()
 	if err := m.N.Close(); err != nil {
 		h.Anomaly("close", err.Error())
 	}
@@ -472,6 +482,10 @@ func (h *H) stepReopen(m *Mon) {
 		h.rebuildEquivalence(m, path)
 	}
 	n, err := h.Chain.Open(path, m.N.Publisher, m.Arb)
+	if err == nil {
+		m.N = n
+	}
+	h.swapUnlock()
 	if err != nil {
 		h.Viol("C07", "reopen-failed", map[string]string{"node": m.Name, "err": err.Error()}, nil)
 		h.Anomaly("reopen-failed", err.Error())
